@@ -134,6 +134,30 @@ fn run(case: &Case, out: &mut Out) {
             out.obs(&[]);
             continue;
         }
+        if op.name == "bb" {
+            // black-box tier: seed max_connections per-ip-limit rounds -> the c16bb binary (a real worker)
+            let exe = std::env::current_exe().unwrap().parent().unwrap().join("c16bb");
+            let res = std::process::Command::new(exe).args(a.iter().map(|t| t.to_string())).output();
+            match res {
+                Ok(o) => {
+                    let text = String::from_utf8_lossy(&o.stdout).to_string();
+                    for line in text.lines() {
+                        if let Some(v) = line.strip_prefix("viol ") {
+                            let (c, t) = v.split_once(' ').unwrap_or((v, ""));
+                            out.viol(c, t);
+                        } else if line.starts_with("note ") {
+                            out.note(&format!("bb: {}", &line[5..]));
+                        }
+                    }
+                    if !text.contains("obs done") {
+                        out.viol("bb-crashed", "the black-box run did not finish (worker thread panicked?)");
+                    }
+                }
+                Err(e) => out.note(&format!("invalid-case: cannot run c16bb: {e}")),
+            }
+            out.obs(&[]);
+            continue;
+        }
         let Some(s) = st.as_mut() else {
             out.note("invalid-case: op before new");
             out.obs(&[]);
